@@ -103,6 +103,8 @@ def run(case, ctx):
         return out
     known_nad = (dialect in ('portable', 'grep')
                  and any(c03.has_nonascii_decimal(x) for x in distinct))
+    raw = sorted(set(x for x in case['examples'] if x is not None and not (
+        o.get('remove_empties') and x.strip() == '')))
     match_sets = {}
     for (name, rexes) in (('untagged', untagged), ('tagged', tagged)):
         sets = []
@@ -122,6 +124,13 @@ def run(case, ctx):
                 detail = '%r matches none of %r (all: %r)' % (r, distinct,
                                                                rexes)
                 out.violate('matches-an-example', name, detail)
+            elif o.get('strip') and not any(re.fullmatch(cr, x)
+                                            for x in raw):
+                # the expressions allow for the white space stripped: an
+                # example AS GIVEN is matched too
+                out.violate('matches-an-example', name + ':as-given',
+                            '%r matches none of the examples as given %r '
+                            '(all: %r)' % (r, raw, rexes))
         match_sets[name] = sets
         if len(set(rexes)) != len(rexes):
             out.violate('no-duplicates', name, 'duplicates in %r' % (rexes,))
